@@ -6,7 +6,8 @@
 From Coq Require Import String Ascii.
 From Coq Require Import List Arith Bool.
 Require Import TT.Model.Str TT.Model.C06Serde TT.Spec.C06SerdeRule.
-Require Import TT.Proofs.C06Strings TT.Proofs.C06Proofs TT.Proofs.C06Main.
+Require Import TT.Model.C06Print TT.Spec.TsLex TT.Spec.TsModule TT.Spec.C06Keys.
+Require Import TT.Proofs.C06Strings TT.Proofs.C06Proofs TT.Proofs.C06Main TT.Proofs.C06Print.
 Import ListNotations.
 Local Open Scope list_scope.
 
@@ -21,6 +22,49 @@ Theorem C06_names : forall c : container,
   in_domain c = true -> kf_C06 c = false ->
   emitted_keys default_field_case c = serde_wire_names c.
 Proof. exact names_correct. Qed.
+
+(* the same for EVERY configured default_field_case (any string; an unknown one counts as camelCase),
+   outside the configuration class C06-7; C06_names is the instance for the default configuration,
+   where that class is empty *)
+Theorem C06_names_cfg : forall (dfc : str) (c : container),
+  in_domain c = true -> kf_C06 c = false -> kf_config_case dfc c = false ->
+  emitted_keys dfc c = serde_wire_names c.
+Proof. exact names_correct_cfg. Qed.
+Theorem C06_config_default_empty : forall c : container, kf_config_case default_field_case c = false.
+Proof. exact config_default_empty. Qed.
+(* C06-7: with default_field_case = camelCase an unattributed struct field is renamed, serde keeps it *)
+Theorem C06_config_case_refuted : in_domain w7 = true /\ kf_C06 w7 = false /\ kf_config_case (L "camelCase") w7 = true /\
+  emitted_keys (L "camelCase") w7 = [L "userId"; L "a"] /\ serde_wire_names w7 = [L "user_id"; L "a"] /\
+  c06_ok w7 [L "userId"; L "a"] = false.
+Proof. exact config_case_refuted. Qed.
+
+(* the run-time oracle is exact *)
+Theorem C06_oracle_exact : forall (c : container) (observed : list str),
+  c06_ok c observed = true <-> observed = serde_wire_names c.
+Proof. exact oracle_exact. Qed.
+
+(* string level (Model/C06Print.v: ts_key, escape_js as the templates print; Spec/TsLex.v lexer,
+   Spec/TsModule.v type parser, Spec/C06Keys.v reader) - every byte string:
+   decoding inverts escaping; a literal is one string token whose decoded body is the name; the key
+   token before the colon decodes to the name whichever form ts_key chose *)
+Theorem C06_unescape_escape : forall s : str, js_unescape (escape_js s) = s.
+Proof. exact unescape_escape. Qed.
+Theorem C06_lex_literal : forall f name rest,
+  lexm (S f) (literal_text name ++ rest) = KStr DQ (escape_js name) :: lexm f rest /\
+  js_unescape (escape_js name) = name.
+Proof. exact lex_literal. Qed.
+Theorem C06_key_token : forall f bare name rest, (bare = true -> ident_bytes name = true) ->
+  exists t k, lexm (S f) (key_text_of bare name ++ ":"%char :: rest) = t :: lexm f (":"%char :: rest) /\
+              key_of_tok t = Some k /\ key_text k = name.
+Proof. exact key_token. Qed.
+(* the enum alias template, any non-empty list of names: the text lexes to the literal tokens, and the
+   type parser + lits_of_ty read exactly the names back *)
+Theorem C06_lex_union : forall names f rest, names <> [] ->
+  lexm (S (4 * (List.length names - 1) + f)) (union_text names ++ rest) = union_toks names ++ lexm f rest.
+Proof. exact lex_union. Qed.
+Theorem C06_union_reads_back : forall names rest, names <> [] ->
+  exists t, ptype (union_toks names ++ P ";" :: rest) = Some (t, P ";" :: rest) /\ lits_of_ty t = Some names.
+Proof. exact union_reads_back. Qed.
 
 (* attributes other than rename and skip (skip_serializing_if = s, default, default = s, ...) change
    nothing: two containers that differ only in such attributes emit the same names, outside the classes *)
@@ -113,6 +157,15 @@ Example C06_ex_enum :
   in_domain ex_enum = true /\ kf_C06 ex_enum = false /\
   emitted_keys default_field_case ex_enum = [L "in-progress"; L "h-t-t-p-error"; L "fin"].
 Proof. vm_compute. repeat split. Qed.
+(* a non-default configuration outside C06-7, and a string-level instance with characters that need escapes *)
+Example C06_ex_cfg :
+  let c := {| c_kind := KStruct; c_attrs := []; c_items := [it0 "id" []; it0 "user_id" [[MRename (L "uid")]]; it0 "tmp_x" [[MSkip]]] |} in
+  in_domain c = true /\ kf_C06 c = false /\ kf_config_case (L "kebab-case") c = false /\ emitted_keys (L "kebab-case") c = [L "id"; L "uid"].
+Proof. vm_compute. repeat split. Qed.
+Example C06_ex_print :
+  key_text_of false (L "a\""b c") = L """a\\\""b c""" /\ ident_bytes (L "user_id") = true /\ ident_bytes (L "user-id") = false /\
+  union_text [L "IN_PROGRESS"; L "a\"] = L """IN_PROGRESS"" | ""a\\""".
+Proof. vm_compute. repeat split. Qed.
 (* an unattributed struct keeps the Rust names *)
 Example C06_ex_plain :
   emitted_keys default_field_case {| c_kind := KStruct; c_attrs := []; c_items := [it0 "user_id" []; it0 "URL" []] |}
@@ -130,6 +183,15 @@ Example C06_ex_rules_agree : ident_ok (L "InProgress") = true /\ rules_differ RC
 Proof. vm_compute. repeat split. Qed.
 
 Print Assumptions C06_names.
+Print Assumptions C06_names_cfg.
+Print Assumptions C06_config_default_empty.
+Print Assumptions C06_config_case_refuted.
+Print Assumptions C06_oracle_exact.
+Print Assumptions C06_unescape_escape.
+Print Assumptions C06_lex_literal.
+Print Assumptions C06_key_token.
+Print Assumptions C06_lex_union.
+Print Assumptions C06_union_reads_back.
 Print Assumptions C06_other_attrs_inert.
 Print Assumptions C06_spec_ignores_others.
 Print Assumptions C06_field_rule.
